@@ -397,4 +397,105 @@ theorem DenseWF.step (points : List Iup.Pt) (ends : List Nat) (sp : Option (List
     rw [List.getD_eq_getElem?_getD, List.getElem?_map, List.getElem?_range hk']; rfl
   rw [this]; rfl
 
+
+theorem lookupV_zip_isSome {α : Type} : ∀ (pts : List Nat) (vs : List α) (k : Nat), pts.length ≤ vs.length →
+    ((lookupV (pts.zip vs) k).isSome = true ↔ k ∈ pts) := by
+  intro pts
+  induction pts with
+  | nil => intro vs k _; simp [lookupV]
+  | cons p ps ih =>
+    intro vs k h
+    cases vs with
+    | nil => simp at h
+    | cons v vs =>
+      simp only [List.zip_cons_cons, List.mem_cons]
+      by_cases hk : p = k
+      · subst hk; rw [lookupV_cons_self]; simp
+      · rw [lookupV_cons_ne p v _ k hk, ih vs k (by simpa using h)]
+        constructor
+        · intro h; exact Or.inr h
+        · rintro (h | h)
+          · exact absurd h.symm hk
+          · exact h
+
+theorem getP_map_range_ge (n : Nat) (f : Nat → Iup.Pt) (k : Nat) (hk : ¬ k < n) :
+    getP ((List.range n).map f) k = (0, 0) := by
+  unfold getP
+  rw [List.getD_eq_getElem?_getD, List.getElem?_eq_none (by simp; omega)]; rfl
+
+/-- the decoded tuple of a well-formed sparse stream satisfies the side conditions of the headline -/
+theorem SparseWF.bounds (points : List Iup.Pt) (sp : Option (List Nat)) (Δ : Int) (hΔ : 0 ≤ Δ)
+    (ts : GvarData.RawTuple × Int) (dt : DTuple) (h : SparseWF points sp Δ ts dt) :
+    dt.s = ts.2 ∧ dt.has.length = points.length ∧ dt.ds.length = points.length ∧
+    (∀ k, (-Δ ≤ (getP dt.ds k).1 ∧ (getP dt.ds k).1 ≤ Δ) ∧ (-Δ ≤ (getP dt.ds k).2 ∧ (getP dt.ds k).2 ≤ Δ)) ∧
+    (∀ k, dt.has.getD k false = false → getP dt.ds k = (0, 0)) := by
+  obtain ⟨_, pts, xs, ys, bs, rest, _, _, _, _, _, h6, h7, h8, h9, rfl⟩ := h
+  refine ⟨rfl, by simp [listedFlags], by simp [listedDs], fun k => ?_, fun k hk => ?_⟩
+  · by_cases hkn : k < points.length
+    · unfold listedDs
+      rw [getP_map_range _ _ k hkn]
+      simp only []
+      constructor
+      · cases hl : lookupV (pts.zip xs) k with
+        | none => simp only []; omega
+        | some x => exact h8 x (List.of_mem_zip (lookupV_mem _ _ _ hl)).2
+      · cases hl : lookupV (pts.zip ys) k with
+        | none => simp only []; omega
+        | some y => exact h9 y (List.of_mem_zip (lookupV_mem _ _ _ hl)).2
+    · unfold listedDs; rw [getP_map_range_ge _ _ k hkn]; simp only []; omega
+  · by_cases hkn : k < points.length
+    · have hf : (lookupV (pts.zip xs) k).isSome = false := by
+        unfold listedFlags at hk
+        rw [List.getD_eq_getElem?_getD, List.getElem?_map, List.getElem?_range hkn] at hk
+        simpa using hk
+      have hnm : k ∉ pts := by
+        intro hm
+        have := (lookupV_zip_isSome pts xs k (by omega)).mpr hm
+        rw [hf] at this; cases this
+      have hy : (lookupV (pts.zip ys) k).isSome = false := by
+        cases hc : (lookupV (pts.zip ys) k).isSome with
+        | false => rfl
+        | true => exact absurd ((lookupV_zip_isSome pts ys k (by omega)).mp hc) hnm
+      unfold listedDs
+      rw [getP_map_range _ _ k hkn]
+      cases hx' : lookupV (pts.zip xs) k with
+      | some x => rw [hx'] at hf; cases hf
+      | none =>
+        cases hy' : lookupV (pts.zip ys) k with
+        | some y => rw [hy'] at hy; cases hy
+        | none => rfl
+    · unfold listedDs; exact getP_map_range_ge _ _ k hkn
+
+theorem DenseWF.bounds (points : List Iup.Pt) (sp : Option (List Nat)) (Δ : Int) (hΔ : 0 ≤ Δ)
+    (ts : GvarData.RawTuple × Int) (dt : DTuple) (h : DenseWF points sp Δ ts dt) :
+    dt.s = ts.2 ∧ dt.has.length = points.length ∧ dt.ds.length = points.length ∧
+    (∀ k, (-Δ ≤ (getP dt.ds k).1 ∧ (getP dt.ds k).1 ≤ Δ) ∧ (-Δ ≤ (getP dt.ds k).2 ∧ (getP dt.ds k).2 ≤ Δ)) ∧
+    (∀ k, dt.has.getD k false = false → getP dt.ds k = (0, 0)) := by
+  obtain ⟨_, xs, ys, bs, rest, _, _, hbx, hby, rfl⟩ := h
+  refine ⟨rfl, by simp, by simp, fun k => ?_, fun k hk => ?_⟩
+  · by_cases hkn : k < points.length
+    · rw [getP_map_range _ _ k hkn]; exact ⟨hbx k, hby k⟩
+    · rw [getP_map_range_ge _ _ k hkn]; simp only []; omega
+  · by_cases hkn : k < points.length
+    · exfalso
+      simp only [] at hk
+      rw [List.getD_eq_getElem?_getD, List.getElem?_map, List.getElem?_range hkn] at hk
+      simp at hk
+    · exact getP_map_range_ge _ _ k hkn
+
+theorem mem_zip_of_mem_right {α β : Type} : ∀ (l : List α) (r : List β), l.length = r.length → ∀ b ∈ r,
+    ∃ a, (a, b) ∈ l.zip r := by
+  intro l
+  induction l with
+  | nil => intro r h b hb; cases r <;> simp at h hb
+  | cons a l ih =>
+    intro r h b hb
+    cases r with
+    | nil => simp at hb
+    | cons c r =>
+      rcases List.mem_cons.mp hb with rfl | hb
+      · exact ⟨a, by simp⟩
+      · obtain ⟨a', ha'⟩ := ih r (by simpa using h) b hb
+        exact ⟨a', by simp [ha']⟩
+
 end FontVerif.GvarApply
